@@ -323,8 +323,25 @@ class C13(Check):
                 for st_ in wb.stubs:
                     n += sum(1 for s in st_.sent if not s[3].header.is_request())
                 return n >= len(reg) and len(finished) >= len(reg)
-            sim.wait_until(all_answered, D + sum(r["slow"] for r in scn["reqs"]), poll=D / 40.0)
-            sim.sleep(min(1.0, D / 2))
+            # liveness is judged at quiescence, not at a fixed instant: keep waiting while the application is
+            # still making progress (handlers starting / finishing, answers leaving); the verdict is taken once
+            # everything is answered or nothing has moved for D (+ the handlers' own sleeps).  A run whose step or
+            # time budget runs out first is inconclusive for the liveness clauses.
+            quiet = D + max([r["slow"] for r in scn["reqs"]] + [0.0]) + max([r.get("nested_delay", 0.0) for r in scn["reqs"]] + [0.0])
+
+            def progress():
+                return (len(invocations), len(finished), sum(len(st_.sent) for st_ in wb.stubs), len(nested))
+            last = [progress(), sim.now]
+            while not sim.halted and not all_answered():
+                sim.wait_until(lambda: False, D / 40.0)
+                pr = progress()
+                if pr != last[0]:
+                    last[0], last[1] = pr, sim.now
+                elif sim.now - last[1] >= quiet:
+                    break
+            stats["quiescent_for"] = round(sim.now - last[1], 3)
+            if not sim.halted:
+                sim.sleep(min(1.0, D / 2))
 
         sim.run_main(main)
 
@@ -339,6 +356,11 @@ class C13(Check):
                 except C.DecodeError as e:
                     violations.append({"clause": "the answer sent is a well-formed message", "sig": "C13/answer-undecodable",
                                        "detail": {"err": str(e), "raw": raw.hex()[:120]}})
+        # budget exhausted before quiescence: the safety clauses (wrong handler, twice, malformed) are still judged,
+        # the liveness clauses (handler ran, answer sent) are not
+        exhausted = sim.halt_reason in ("max_steps", "horizon")
+        if exhausted:
+            stats["inconclusive_liveness"] = 1
         for r in scn["reqs"]:
             appid = APPS[r["app"]][2]
             key = (appid, r["code"])
@@ -356,6 +378,8 @@ class C13(Check):
             if wrong:
                 violations.append({"clause": "dispatched to exactly the handler registered for its pair and to no other",
                                    "sig": "C13/wrong-handler", "detail": {"request": key, "ran": [i[0] for i in inv]}})
+                continue
+            if exhausted and (len(inv) == 0 or (len(inv) == 1 and len(ans) == 0)):
                 continue
             if len(inv) != 1:
                 violations.append({"clause": "the registered handler runs exactly once per request",
